@@ -852,7 +852,7 @@ impl Vm {
 
     match module.get_symbol_by_slot(slot as usize) {
       Some(symbol) => {
-        if symbol == VALUE_UNDEFINED {
+        if symbol.is_undefined() {
           match module.get_symbol_name_by_slot(slot as usize) {
             Some(name) => self.runtime_error_from_str(
               self.builtin.errors.runtime,
@@ -880,7 +880,7 @@ impl Vm {
     let slot = self.read_byte() as isize;
     let local = *self.stack_start().offset(slot);
     let local = local.to_obj().to_box().value;
-    if local == VALUE_UNDEFINED {
+    if local.is_undefined() {
       match self
         .current_fun
         .module()
